@@ -203,6 +203,7 @@ def run_task(prop, unit, prefixes, slice_s, validate=True):
     pending = []          # (kind, inp_concrete, expected_real_json)
 
     def body(eng):
+        instr.reset_path_state()
         h.reset()
         try:
             eng._last_inputs = None
@@ -320,6 +321,17 @@ def _sample_models(eng, h, unit, pending, res):
             if not vals:
                 break
             block.append(z3.Or(vals))
+        # the harness' own adversarial boundary conditions
+        inp0 = getattr(eng, '_last_inputs', None)
+        if inp0:
+            try:
+                conds = h.boundary(eng, unit, inp0)
+            except Exception:
+                conds = []
+            for cond in conds[:12]:
+                m = eng.model(cond)
+                if m is not None:
+                    pending.append(('sample', concretize(inp0, m), None))
         # boundary-biased samples: each symbolic string starting with a character that native
         # code commonly treats specially
         inp = getattr(eng, '_last_inputs', None) or {}
